@@ -327,7 +327,9 @@ PROPS = {
                    "OPEN frame / hands a stream to a requester on EVERY path only after its own acquire(1) on this stream queue's limiter in "
                    "the same iteration (ghost count of paid-for opens, client and server side alike); mux::StreamQueue::new builds the limiter "
                    "with exactly the rate it is given, rpc::Client::new and rpc::Service::add_server build their queue with exactly the "
-                   "configured rate and R::INFLIGHT as stream limit and register that very queue under the RPC's capability.",
+                   "configured rate and R::INFLIGHT as stream limit and register that very queue under the RPC's capability; the per-request task of "
+                   "rpc::Server::serve (lifted mechanically) serves exactly ONE request per reserved stream (ghost budget consumed by Handler::handle) and "
+                   "receives it under exactly the handler's own max_req_size().",
         level_note="Not decided: the relation between the limiter clock (ticks = floor((now - start) / refresh), or the tick an acquire "
                    "slept until) and wall-clock time is read off the code, not proved; arrival-order service (tokio's fair mutex), and the per-connection RPC consequence (composition through the mux, "
                    "concurrent). Rely condition: between the wait and the final section only Permit::drop runs (acquires are serialised by "
@@ -337,7 +339,7 @@ PROPS = {
         assumptions=[],
     ),
     "C10": dict(
-        units=["mux", "noise", "qc", "replica", "conv", "leader", "canonical", "handlers"],
+        units=["mux", "noise", "qc", "replica", "conv", "leader", "canonical", "handlers", "streams"],
         kani=["std_conv"],
         kani_quick=True,
         level="proof",
